@@ -459,9 +459,16 @@ const subDomainNum = 4
 // prefix filter.
 func hashableSubdomains(domain string) (sub []string) {
 	pubSuf, icann := publicsuffix.PublicSuffix(domain)
-	if !icann {
-		// Check the full private domain space.
-		pubSuf = ""
+	for !icann {
+		// Check the full private domain space, but not the ICANN suffix it is
+		// registered under.  An unmanaged top-level domain is its own public
+		// suffix.
+		_, parent, ok := strings.Cut(pubSuf, ".")
+		if !ok {
+			break
+		}
+
+		pubSuf, icann = publicsuffix.PublicSuffix(parent)
 	}
 
 	dotsNum := 0
